@@ -255,6 +255,9 @@ func (e *Env) evalBinary(n *SBinary) Val {
 			return Val{T: a.T, S: IntLit(x - y)}
 		}
 	}
+	if n.Op == "+" && isString(a.T) {
+		return Val{T: a.T, S: app("str.++", a.S, b.S)}
+	}
 	bv := e.vc().BV && isInteger(a.T)
 	uns := isUnsigned(a.T)
 	switch n.Op {
@@ -537,6 +540,22 @@ func (e *Env) evalCall(n *SCall) Val {
 			ref = v.Fs[0].S
 		}
 		return boolVal(And(app(">=", ref, h.alloc(e.pre)), app("<", ref, h.alloc(e.cur))))
+	case "toupper", "tolower", "trimspace":
+		// the uninterpreted functions the models of strings.ToUpper/ToLower/TrimSpace use
+		nm := map[string]string{"toupper": "strings.ToUpper", "tolower": "strings.ToLower", "trimspace": "strings.TrimSpace"}[n.Fun]
+		fn := e.vc().Fun("fn:"+nm, []string{"String"}, "String")
+		return Val{T: stringT, S: app(fn, arg(0).S)}
+	case "trimprefix":
+		// strings.TrimPrefix(s, p), as in its model
+		sv, pv := arg(0).S, arg(1).S
+		return Val{T: stringT, S: Ite(app("str.prefixof", pv, sv), app("str.substr", sv, app("str.len", pv), app("-", app("str.len", sv), app("str.len", pv))), sv)}
+	case "strof":
+		// strof(b): the string the byte slice b was converted from ([]byte(s)); ghost
+		v := arg(0)
+		if _, ok := under(v.T).(*types.Slice); !ok {
+			sfail("strof: not a slice")
+		}
+		return Val{T: stringT, S: Select(h.get(e.cur, bytesOfKey, "(Array Int String)"), v.Fs[0].S)}
 	case "allocated":
 		v := arg(0)
 		return boolVal(And(app(">", v.S, "0"), app("<", v.S, h.alloc(e.cur))))
